@@ -15,7 +15,7 @@ class C07(ProgramProperty):
             "strings (URIs around registered prefixes, CURIEs, strings that are both, delimiter-free strings, '', "
             "the delimiter alone) with is_uri, compress, parse_uri, is_curie, expand, parse, "
             "compress_or_standardize, expand_or_standardize, compress_strict, expand_strict, format_curie. "
-            "Non-trivial = some probe is recognised both as URI and as CURIE.")
+            "Non-trivial = some probe is recognised both as URI and as CURIE. Converters are built directly or through histories with warm-up queries, merges and a rejected call.")
 
     def gen(self, rng, tier):
         delim = rng.choice([":", ":", ":", "/", "::", "_"])
